@@ -216,6 +216,14 @@ class Violation:
         self.concrete = concrete        # False = tie broken but no failing input found
 
 
+def san_env():
+    """environment for sanitized programs: leaks at exit (m17-mod never destroys its codec2 state) are not what any property is about"""
+    e = dict(os.environ)
+    e.setdefault("ASAN_OPTIONS", "detect_leaks=0:abort_on_error=0")
+    e.setdefault("UBSAN_OPTIONS", "print_stacktrace=1")
+    return e
+
+
 class Ctx:
     def __init__(self, pid, tier, seed):
         self.pid = pid
@@ -268,9 +276,7 @@ class Ctx:
         with open(inp, "w") as f:
             f.write("\n".join(lines))
             f.write("\n")
-        e = dict(os.environ)
-        e.setdefault("ASAN_OPTIONS", "detect_leaks=0:abort_on_error=0")
-        e.setdefault("UBSAN_OPTIONS", "print_stacktrace=1")
+        e = san_env()
         if env:
             e.update(env)
         with open(inp) as fin:
